@@ -515,8 +515,8 @@ def p4(ck: Check) -> dict[str, str]:
             if d.startswith("self.dag.") or d.startswith("self.node_indices.") or n.func.attr in ("clear", "pop", "remove_node"):
                 if n.func.attr not in ("nodes",):
                     ck.ob("P4", fm, fm.f.stmt_of(n), False, f"reclaim calls `{d}`: structural data of the diagram is touched")
-        if isinstance(n, (ast.Assign, ast.AugAssign)) and any(text(t).startswith("self.") for t in
-                                                              (n.targets if isinstance(n, ast.Assign) else [n.target])):
+        if isinstance(n, (ast.Assign, ast.AugAssign)) and any(text(t).startswith("self.") and not text(t).startswith("self.node_data(")
+                                                              for t in (n.targets if isinstance(n, ast.Assign) else [n.target])):
             ck.ob("P4", fm, n, False, f"reclaim rebinds diagram state: `{text(n)[:60]}`")
     return acc
 
